@@ -1,63 +1,94 @@
 (* C07 — translator tie for dnsname.Sub / dnsname.CompareSuffix (with miekg's dns.CountLabel and dns.NextLabel,
-   which srcgen translates since 44b398f under full_imports).  These are the functions behind checkGlueRR's
-   bailiwick test and progressingReferral; the model's [compare_suffix] / [is_sub] work on label lists.
-   FULL STATEMENT (not proved here - it needs loop invariants for NextLabel's escape handling, CountLabel and the
-   three loops of CompareSuffix):
-     forall z n, plain z -> plain n -> exists fuel0, forall fuel, fuel0 <= fuel ->
-       go_Sub fuel (pres z) (pres n) = Some (is_sub z n)
-   PROVED ([sub_agrees_partial], [compare_suffix_agrees_partial]): the equation for every ordered pair of a fixed
-   grid of 22 names (root, case mixes, label-boundary near misses, siblings, deeper names; 484 pairs), by
-   computation on the TRANSLATED function - so a behaviour-changing edit of CompareSuffix / Sub (or of the two
-   miekg helpers) on these inputs breaks the build; plus escaped-dot examples.  The label comparison inside
-   ([go_equalFold] = [label_eqb]) is proved for all inputs in Proofs_fold.v. *)
+   translated by srcgen under full_imports): the functions behind checkGlueRR's bailiwick test and
+   progressingReferral.  The UNIVERSAL statements are C02's (coq/theories/C02/Proofs_Gen.v: gen_compare_suffix,
+   gen_sub - induction over the generated Fixpoints; C02/Proofs_Order.v: go_compare_suffix_spec).  Here:
+     * Gen/C07.v's go_Sub / go_CompareSuffix are the very terms of Gen/C02.v (both generated from the same
+       source: convertible, [gen_sub_same], [gen_compare_suffix_same]);
+     * C02 writes names leaf first, C07 root first: [pres_is_present], [plain_is_plain_name],
+       [compare_suffix_is_lcp] carry the statements over;
+     * result: on the presentation strings of escape-free names (labels non-empty, no '.' and no '\' inside;
+       any case), with fuel above the combined lengths, go_CompareSuffix computes [compare_suffix] and go_Sub
+       computes [is_sub] - the model functions every containment theorem is stated with. *)
 From Coq Require Import String.
 From Sdns Require Import Common.Base Common.GoList Gen.C07 C07.Model C07.Proofs_names C07.Proofs_zone.
+From Sdns Require Gen.C02 C02.Model C02.Proofs_Order C02.Proofs_Gen.
 Open Scope N_scope.
 
-Definition L (s : string) : label := s2b s.
-Local Open Scope string_scope.
-Definition grid : list name :=
-  [ [];
-    [L "com"]; [L "COM"]; [L "net"];
-    [L "com"; L "example"]; [L "Com"; L "EXAMPLE"]; [L "com"; L "notexample"]; [L "com"; L "exam"]; [L "com"; L "ple"; L "exam"];
-    [L "net"; L "example"];
-    [L "com"; L "example"; L "www"]; [L "COM"; L "Example"; L "Www"]; [L "com"; L "example"; L "ns"];
-    [L "com"; L "www"]; [L "com"; L "other"; L "www"]; [L "com"; L "example"; L "sub"; L "www"]; [L "com"; L "example"; L "www"; L "a"];
-    [L "l1"; L "evil"]; [L "l1"; L "evil"; L "sub"; L "x"]; [L "l1"; L "notevil"]; [L "l2"; L "victim"; L "www"];
-    [L "uk"; L "co"; L "example"; L "ns"; L "a"] ].
+Lemma gen_sub_same : go_Sub = Sdns.Gen.C02.go_Sub.
+Proof. reflexivity. Qed.
+Lemma gen_compare_suffix_same : go_CompareSuffix = Sdns.Gen.C02.go_CompareSuffix.
+Proof. reflexivity. Qed.
 
-(* the translated dnsname.Sub agrees with the model's is_sub on every ordered pair of the grid (484 pairs) *)
-Example sub_agrees_on_grid :
-  forallb (fun z => forallb (fun n =>
-    match go_Sub 64 (pres z) (pres n) with Some b => Bool.eqb b (is_sub z n) | None => false end) grid) grid = true.
-Proof. vm_compute. reflexivity. Qed.
-
-(* ... and the translated CompareSuffix with the model's compare_suffix *)
-Example compare_suffix_agrees_on_grid :
-  forallb (fun a => forallb (fun b =>
-    match go_CompareSuffix 64 (pres a) (pres b) with Some k => Z.eqb k (Z.of_nat (compare_suffix a b)) | None => false end) grid) grid = true.
-Proof. vm_compute. reflexivity. Qed.
-
-(* an escaped dot is part of its label: foo\.example.com. = labels "foo.example", "com" *)
-Example sub_escaped_dot :
-  go_Sub 64 (s2b "example.com.") (s2b "foo\.example.com.") = Some (is_sub [L "com"; L "example"] [L "com"; L "foo.example"]).
-Proof. vm_compute. reflexivity. Qed.
-Example sub_escaped_dot_inside :
-  go_Sub 64 (s2b "x\.y.example.net.") (s2b "www.x\.y.example.net.") =
-  Some (is_sub [L "net"; L "example"; L "x.y"] [L "net"; L "example"; L "x.y"; L "www"]).
-Proof. vm_compute. reflexivity. Qed.
-
-Local Close Scope string_scope.
-Lemma sub_agrees_partial z n : In z grid -> In n grid -> go_Sub 64 (pres z) (pres n) = Some (is_sub z n).
+(* ---- the two name representations *)
+Lemma plain_label_same l : plain_label l -> Sdns.C02.Proofs_Gen.plain_label l.
 Proof.
-  intros Hz Hn. pose proof sub_agrees_on_grid as H. rewrite forallb_forall in H. specialize (H z Hz).
-  rewrite forallb_forall in H. specialize (H n Hn).
-  destruct (go_Sub 64 (pres z) (pres n)) as [b|]; [|discriminate]. apply Bool.eqb_prop in H. now subst.
+  intros [H0 H]. split; [exact H0|]. rewrite Forall_forall in H. split; intros Hin; destruct (H _ Hin); congruence.
 Qed.
-Lemma compare_suffix_agrees_partial a b : In a grid -> In b grid ->
-  go_CompareSuffix 64 (pres a) (pres b) = Some (Z.of_nat (compare_suffix a b)).
+Lemma plain_is_plain_name n : plain n -> Sdns.C02.Proofs_Gen.plain_name (rev n).
 Proof.
-  intros Ha Hb. pose proof compare_suffix_agrees_on_grid as H. rewrite forallb_forall in H. specialize (H a Ha).
-  rewrite forallb_forall in H. specialize (H b Hb).
-  destruct (go_CompareSuffix 64 (pres a) (pres b)) as [k|]; [|discriminate]. apply Z.eqb_eq in H. now subst.
+  intros H. unfold Sdns.C02.Proofs_Gen.plain_name. apply Forall_rev.
+  eapply Forall_impl; [|exact H]. exact plain_label_same.
+Qed.
+Lemma pres_labels_is_pres ls : pres_labels ls = Sdns.C02.Proofs_Gen.pres ls.
+Proof. unfold pres_labels, Sdns.C02.Proofs_Gen.pres. symmetry. apply flat_map_concat_map. Qed.
+Lemma pres_is_present n : pres n = Sdns.C02.Proofs_Gen.present (rev n).
+Proof.
+  destruct n as [|x n]; [reflexivity|]. rewrite pres_nonempty by discriminate.
+  unfold Sdns.C02.Proofs_Gen.present. rewrite pres_labels_is_pres.
+  destruct (rev (x :: n)) eqn:E; [|reflexivity].
+  apply (f_equal (@length _)) in E. rewrite rev_length in E. discriminate.
+Qed.
+
+Lemma bytes_eqb_is_list_eqb a b : bytes_eqb a b = Sdns.C02.Model.list_eqb N.eqb a b.
+Proof. revert b; induction a as [|x a IH]; intros [|y b]; cbn; try reflexivity. now rewrite IH. Qed.
+Lemma canon_is_c02_canon n : Sdns.C02.Model.canon (rev n) = canon n.
+Proof.
+  unfold Sdns.C02.Model.canon, canon. rewrite map_rev, rev_involutive. reflexivity.
+Qed.
+(* C07's compare_suffix on root-first names = C02's common-prefix length of the canonical names *)
+Lemma compare_suffix_is_lcp a b : compare_suffix a b = Sdns.C02.Model.lcp (canon a) (canon b).
+Proof.
+  revert b; induction a as [|x a IH]; intros [|y b]; try reflexivity.
+  cbn [compare_suffix canon map Sdns.C02.Model.lcp].
+  unfold label_eqb, Sdns.C02.Model.label_eqb. rewrite bytes_eqb_is_list_eqb.
+  destruct (Sdns.C02.Model.list_eqb N.eqb (canon_label x) (canon_label y)); [|reflexivity].
+  f_equal. apply IH.
+Qed.
+Lemma compare_suffix_is_go_compare_suffix a b :
+  Sdns.C02.Model.go_compare_suffix (rev a) (rev b) = compare_suffix a b.
+Proof. rewrite Sdns.C02.Proofs_Order.go_compare_suffix_spec, !canon_is_c02_canon. symmetry. apply compare_suffix_is_lcp. Qed.
+
+(* ---- the universal ties *)
+Lemma gen_compare_suffix fuel a b : plain a -> plain b ->
+  (length (pres a) + length (pres b) < fuel)%nat ->
+  go_CompareSuffix fuel (pres a) (pres b) = Some (Z.of_nat (compare_suffix a b)).
+Proof.
+  intros Ha Hb Hf. rewrite gen_compare_suffix_same, !pres_is_present in *.
+  rewrite (Sdns.C02.Proofs_Gen.gen_compare_suffix fuel (rev a) (rev b) (plain_is_plain_name _ Ha) (plain_is_plain_name _ Hb) Hf).
+  now rewrite compare_suffix_is_go_compare_suffix.
+Qed.
+
+Lemma gen_sub fuel z n : plain z -> plain n ->
+  (length (pres z) + length (pres n) < fuel)%nat ->
+  go_Sub fuel (pres z) (pres n) = Some (is_sub z n).
+Proof.
+  intros Hz Hn Hf. rewrite gen_sub_same, !pres_is_present in *.
+  rewrite (Sdns.C02.Proofs_Gen.gen_sub fuel (rev z) (rev n) (plain_is_plain_name _ Hz) (plain_is_plain_name _ Hn) Hf).
+  rewrite compare_suffix_is_go_compare_suffix, rev_length. reflexivity.
+Qed.
+
+Local Open Scope string_scope.
+(* non-vacuity, on the translated code: case mixes, a label-boundary near miss, an escaped dot (outside the
+   theorem's domain, still agreeing) *)
+Example gen_sub_examples :
+  let L := s2b in
+  plain [L "com"; L "Example"; L "www"] /\
+  go_Sub 64 (pres [L "COM"; L "example"]) (pres [L "com"; L "Example"; L "www"]) = Some true /\
+  go_Sub 64 (pres [L "com"; L "example"]) (pres [L "com"; L "notexample"]) = Some false /\
+  go_CompareSuffix 64 (pres [L "com"; L "other"; L "www"]) (pres [L "com"; L "example"; L "www"]) = Some 1%Z /\
+  go_Sub 64 (s2b "example.com.") (s2b "foo\.example.com.") = Some (is_sub [L "com"; L "example"] [L "com"; L "foo.example"]) /\
+  go_Sub 3 (pres [L "com"]) (pres [L "com"; L "example"]) = None.
+Proof.
+  cbv zeta. split; [|vm_compute; repeat split; reflexivity].
+  repeat constructor; try discriminate; vm_compute; intros H; discriminate.
 Qed.
